@@ -28,11 +28,14 @@ CONSTANTS MaxW,      \* largest number of workers in any configuration
           MaxC,      \* largest number of successive calls
           Configs,   \* set of [nw, nts, fail]: nw \in 0..MaxW (0 = serial mode),
                      \*   nts \in Seq(0..MaxT), fail \in Seq(SUBSET 1..MaxT), same length
-          Mode       \* "Handled" | "AsIs"
+          Mode,      \* "Handled" | "AsIs"
+          QueueOrder \* "fifo": the result queue is one FIFO (the replay scheduler's fake queue);
+                     \* "perproducer": FIFO per producing worker only - what multiprocessing.Queue
+                     \* guarantees (each process has its own feeder thread writing to the pipe)
 
 VARIABLES cfg,       \* the configuration of this behaviour (never changes)
           taskQ,     \* FIFO of [c, i]            (c is a ghost tag: the call that enqueued it)
-          resQ,      \* FIFO of [c, i, v]         v \in {"ok", "exc"}
+          resQ,      \* sequence of [c, i, v, k]  v \in {"ok", "exc"}; k = producing worker (ghost)
           w,         \* w[k] = [st, c, i],  st \in {"idle", "run", "dead"}
           pc,        \* parent: "idle" "put" "get" "checkT" "checkR" "ret" "raise" "valerr" "serial" "shut"
           call,      \* number of the current call (0 before the first)
@@ -43,7 +46,7 @@ VARIABLES cfg,       \* the configuration of this behaviour (never changes)
 
 vars == <<cfg, taskQ, resQ, w, pc, call, nput, nget, res, raisedIdx, outcome>>
 
-None == [c |-> 0, i |-> 0, v |-> "none"]
+None == [c |-> 0, i |-> 0, v |-> "none", k |-> 0]
 
 NC      == Len(cfg.nts)
 NT      == IF call \in 1..NC THEN cfg.nts[call] ELSE 0
@@ -85,7 +88,7 @@ SerialStep ==
   /\ LET i == nput + 1 IN
        IF i \in FailOf(call)
          THEN /\ pc' = "raise" /\ raisedIdx' = i /\ UNCHANGED <<nput, res>>
-         ELSE /\ res' = [res EXCEPT ![i] = [c |-> call, i |-> i, v |-> "ok"]]
+         ELSE /\ res' = [res EXCEPT ![i] = [c |-> call, i |-> i, v |-> "ok", k |-> 0]]
               /\ nput' = i /\ UNCHANGED raisedIdx
               /\ pc' = IF i = NT THEN "ret" ELSE "serial"
   /\ UNCHANGED <<cfg, taskQ, resQ, w, call, nget, outcome>>
@@ -107,7 +110,7 @@ WorkerTake(k) ==
 WorkerDone(k) ==
   /\ k \in Workers
   /\ w[k].st = "run" /\ w[k].i \notin FailOf(w[k].c)
-  /\ resQ' = Append(resQ, [c |-> w[k].c, i |-> w[k].i, v |-> "ok"])
+  /\ resQ' = Append(resQ, [c |-> w[k].c, i |-> w[k].i, v |-> "ok", k |-> k])
   /\ w' = [w EXCEPT ![k] = [st |-> "idle", c |-> 0, i |-> 0]]
   /\ UNCHANGED <<cfg, taskQ, pc, call, nput, nget, res, raisedIdx, outcome>>
 
@@ -118,17 +121,22 @@ WorkerRaise(k) ==
        THEN /\ w' = [w EXCEPT ![k] = [st |-> "dead", c |-> 0, i |-> 0]]   \* uncaught: the process exits
             /\ UNCHANGED resQ
        ELSE /\ w' = [w EXCEPT ![k] = [st |-> "idle", c |-> 0, i |-> 0]]
-            /\ resQ' = Append(resQ, [c |-> w[k].c, i |-> w[k].i, v |-> "exc"])
+            /\ resQ' = Append(resQ, [c |-> w[k].c, i |-> w[k].i, v |-> "exc", k |-> k])
   /\ UNCHANGED <<cfg, taskQ, pc, call, nput, nget, res, raisedIdx, outcome>>
 
 \* result_queue.get(); result[i] = this_result.  After the last one the caller scans
 \* the list for failed tasks (local) and either raises or goes on to the emptiness tests.
-ParentGet ==
-  /\ pc = "get" /\ resQ # <<>>
-  /\ LET m    == Head(resQ)
+\* which queued results the next result_queue.get() may return
+Eligible(n) == IF QueueOrder = "fifo" THEN n = 1
+               ELSE \A m \in 1..(n - 1) : resQ[m].k # resQ[n].k
+RemoveAt(q, n) == [j \in 1..(Len(q) - 1) |-> IF j < n THEN q[j] ELSE q[j + 1]]
+
+ParentGetAt(n) ==
+  /\ pc = "get" /\ n \in 1..Len(resQ) /\ Eligible(n)
+  /\ LET m    == resQ[n]
          nres == [res EXCEPT ![m.i] = m]
          bad  == {i \in 1..NT : nres[i].v = "exc"}
-     IN /\ resQ' = Tail(resQ)
+     IN /\ resQ' = RemoveAt(resQ, n)
         /\ res'  = nres
         /\ nget' = nget + 1
         /\ IF nget + 1 = NT
@@ -136,6 +144,8 @@ ParentGet ==
                               ELSE pc' = "checkT" /\ raisedIdx' = 0
              ELSE pc' = "get" /\ raisedIdx' = 0
   /\ UNCHANGED <<cfg, taskQ, w, call, nput, outcome>>
+
+ParentGet == \E n \in 1..MaxT : ParentGetAt(n)
 
 ParentCheckTask ==
   /\ pc = "checkT"
@@ -186,7 +196,7 @@ Spec == Init /\ [][Next]_vars /\ WF_vars(Parent) /\ \A k \in 1..MaxW : WF_vars(W
 
 \* value-for-value equality with the serial map when the call returns
 Positions ==
-  pc = "ret" => \A i \in 1..NT : res[i] = [c |-> call, i |-> i, v |-> "ok"]
+  pc = "ret" => \A i \in 1..NT : res[i].c = call /\ res[i].i = i /\ res[i].v = "ok"
 
 \* a result consumed during call c was produced for call c
 NoStale == \A i \in 1..MaxT : res[i] # None => res[i].c = call
